@@ -37,7 +37,7 @@ Proof.
   - specialize (IHl cur ins ml st H). destruct (eval (compile_cond l) env cur ins ml st) as [[v ml'] st'].
     cbn [fst snd] in IHl. destruct v; [exact IHl | apply IHr; exact IHl].
   - specialize (IH cur ins ml st H). destruct (eval (compile_cond c) env cur ins ml st) as [[v ml'] st'].
-    cbn [fst snd] in IH. destruct v; cbn [fst snd]; [constructor | exact IH].
+    cbn [fst snd] in IH. destruct v; cbn [fst snd]; [exact H | exact IH].
 Qed.
 
 (* ---- appending to a list whose front holds no action entry ------------------------------------------------ *)
